@@ -296,10 +296,7 @@ def duplicate_fresh(r, s, meta, el, shift=20000):
     parent = next(e for e in xg.all_elements(c) if any(k is g for k in e.kids))
     g2 = g.copy()
 
-    def bump(v, t):
-        m = re.search(r'\d+', v.split('-')[0] if t != 'date' else '')
-        return None
-    # rebuild fresh values by regenerating lexical forms with an offset: find k from the canonical forms
+    # fresh values: find the index k of the value among the generated forms, then take k + shift
     def fresh(v, t):
         for k in range(0, 8000):
             if v in forms(t, k):
@@ -342,7 +339,7 @@ def gen(seed, si, tier):
         viol, skips = chk.check(el)
         out.append(('base', scen, n, el, viol, skips, None))
         base_idx = len(out) - 1
-        if viol is not None and not skips and ii % 2 == 0:
+        if viol is not None and (ii % 2 == 0 or skips):
             p = permute(r, el)
             v2, s2 = chk.check(p)
             out.append(('permuted', scen, n, p, v2, s2, base_idx))
@@ -414,7 +411,9 @@ def shrink_and_name(ck, binary, nproc, tier, confirmed):
             for n, c in cases:
                 rec = recs.get(c.id)
                 if rec is not None and rec.complete and not rec.crash and not rec.hang and rec.steps():
-                    res[n] = classify(pc.parse_step(rec.steps()[0])) == cls
+                    st_ = pc.parse_step(rec.steps()[0])
+                    # same class and (for errors) the same set of codes: shrinking must not drift to another defect
+                    res[n] = classify(st_) == cls and (cls != 'E' or sorted(set(e[2] for e in st_.errs if e[0] == 'E')) == list(ecodes))
             return res
         keep = shrink.ddmin(units, test_batch, max_rounds=14) if len(units) > 1 else units
         # ddmin may return the input unchanged; make sure the result still disagrees (else keep the original)
@@ -510,8 +509,8 @@ def run(tier):
                     if x[4] is None or x[5]:
                         for sk in (x[5] or ['?']):
                             skipped[sk.split(':')[0]] += 1
-                    else:
-                        usable.append(i)
+                    if x[4] is not None:
+                        usable.append(i)          # undecided instances still run: they take part in the metamorphic pairs
                 # batches bounded by size
                 cur, size, batches = [], 0, []
                 for i in usable:
@@ -542,7 +541,9 @@ def run(tier):
             recs = core.run_cases(binary, cases, tag='c10', shards=nproc)
             recheck = []
             observed = {}        # (si, instance index, cfg) -> class
+            disagree = set()     # (si, instance index) that differ from the reference (reported on their own)
             confirmed = []
+            pairs = []
             for c in cases:
                 w, idx, single, cfg = meta[c.id]
                 rec = recs.get(c.id)
@@ -568,10 +569,14 @@ def run(tier):
                     cls = classify(st, line)
                     exp = 'E' if viol else 'V'
                     observed[(w['si'], i, cfg)] = cls
+                    if skips:
+                        stats['undecided_by_reference_run_for_metamorphic_pairs'] += 1
+                        continue
                     ck.evaluations += 1
                     if cls != exp:
                         ecodes = sorted(set(e[2] for e in st.errs if e[0] == 'E' and (line is None or e[3] == line)))
                         (confirmed if single else recheck).append((w, i, cfg, cls, ecodes))
+                        disagree.add((w['si'], i))
                         continue
                     stats[fam_ + ('_valid' if exp == 'V' else '_invalid')] += 1
                     scen_seen[scen] += 1
@@ -582,22 +587,26 @@ def run(tier):
                     if sampled[0] < 3 and viol and n <= 5:
                         sampled[0] += 1
                         ck.sample({'schema': w['docs'][0][1].decode()[:2500], 'instance': xml[:800], 'expected': 'invalid: ' + vkey(viol), 'observed': 'errors (codes %s)' % sorted(set(e[2] for e in st.errs if e[0] == 'E' and (line is None or e[3] == line))), 'config': list(cfg)})
-                # metamorphic: a variant must fall into the class of its base under the same configuration
-                for pos, i in enumerate(idx):
+                pairs.append((w, idx, cfg))
+            # metamorphic: a variant must fall into the class of its base under the same configuration (pairs in which a
+            # member already disagrees with the reference are reported through that disagreement only)
+            for (w, idx, cfg) in pairs:
+                for i in idx:
                     fam_, scen, n, xml, viol, skips, base = w['instances'][i]
-                    if base is None:
+                    if base is None or (w['si'], i) in disagree or (w['si'], base) in disagree:
                         continue
                     a, b = observed.get((w['si'], base, cfg)), observed.get((w['si'], i, cfg))
                     if a is None or b is None:
                         continue
                     bx = w['instances'][base]
                     stats['metamorphic_pairs_' + fam_] += 1
-                    if fam_ == 'permuted' and a != b and vkey(bx[4]) == vkey(viol):
-                        ck.violation('C10:order-dependent:%s:%s' % (vkey(viol), w['meta']['fields']), 'permuting siblings changed the verdict class (%s -> %s)' % (a, b),
-                                     {'case': mk_case('w', cfg, w['ents'], wrap_single(w['tns'], xml)).to_json(), 'base': bx[3], 'permuted': xml, 'schema': w['docs'][0][1].decode()})
+                    und = 'undecided' if (skips or bx[5]) else vkey(viol)
+                    if fam_ == 'permuted' and a != b and (skips or bx[5] or vkey(bx[4]) == vkey(viol)):
+                        ck.violation('C10:order-dependent:%s' % und, 'permuting siblings changed the verdict class (%s -> %s)' % (a, b),
+                                     {'case': mk_case('w', cfg, w['ents'], wrap_single(w['tns'], xml)).to_json(), 'base': bx[3], 'permuted': xml, 'schema': w['docs'][0][1].decode(), 'meta': w['meta']})
                     if fam_ == 'dup-fresh' and a == 'V' and b != 'V' and not viol:
-                        ck.violation('C10:fresh-duplicate-rejected:%s' % w['meta']['fields'], 'duplicating a conforming group with fresh key values made the instance invalid',
-                                     {'case': mk_case('w', cfg, w['ents'], wrap_single(w['tns'], xml)).to_json(), 'base': bx[3], 'variant': xml, 'schema': w['docs'][0][1].decode()})
+                        ck.violation('C10:fresh-duplicate-rejected', 'duplicating a conforming group with fresh key values made the instance invalid',
+                                     {'case': mk_case('w', cfg, w['ents'], wrap_single(w['tns'], xml)).to_json(), 'base': bx[3], 'variant': xml, 'schema': w['docs'][0][1].decode(), 'meta': w['meta']})
             if recheck:
                 rc = []
                 rmeta = {}
@@ -647,10 +656,6 @@ def run(tier):
                       'fields whose node is a nilled element are not decided (XSD 1.0 gives a nilled element no value; skipped and counted)',
                       'a keyref on an element refers to keys/uniques of that element or of its descendants (3.11.4; Xerces documents the same reading)']
     return ck.finish()
-
-
-def situation(m, scen):
-    return '%s-%s-%s/%s' % (m['kind'], m['scope'], m['tid'] if 'attr' in m['fields'] or m['fields'] in ('sub-selected', 'path-attr', 'desc-attr') else m['tcode'], scen)
 
 
 def replay(j):
